@@ -33,7 +33,8 @@ PURE_FUNCS = {"len", "str", "repr", "int", "bool", "float", "tuple", "list", "se
               "callable", "id", "ord", "chr", "hash", "partial"}
 PURE_METHODS = {"find", "rfind", "index", "partition", "rpartition", "split", "rsplit", "startswith", "endswith", "join", "strip",
                 "lstrip", "rstrip", "lower", "upper", "keys", "items", "values", "digest", "hexdigest", "encode", "decode", "format",
-                "count", "copy", "replace", "isdigit", "splitlines", "title"}
+                "count", "copy", "replace", "isdigit", "splitlines", "title", "removeprefix", "removesuffix", "isalnum", "isalpha", "isidentifier",
+                "casefold", "zfill", "ljust", "rjust", "center", "expandtabs", "hex"}
 PURE_PREFIXES = ("stat.", "os.path.", "posixpath.", "struct.calcsize", "shlex.")
 
 
